@@ -408,7 +408,7 @@ func genJob(t *rapid.T, name string) jobSpec {
 			j.Params = map[string][]string{}
 		}
 		k := rapid.SampledFrom([]string{"module", "target", "q"}).Draw(t, fmt.Sprintf("p%d-k", i))
-		vs := []string{rapid.SampledFrom([]string{"http_2xx", "a b", "x&y=z", "ü"}).Draw(t, fmt.Sprintf("p%d-v0", i))}
+		vs := []string{rapid.SampledFrom([]string{"http_2xx", "a b", "x&y=z", "ü", ""}).Draw(t, fmt.Sprintf("p%d-v0", i))}
 		if rapid.Bool().Draw(t, fmt.Sprintf("p%d-two", i)) {
 			vs = append(vs, "second")
 		}
